@@ -483,9 +483,12 @@ class YAMLPath:
                         demarc_stack.append(char)
                         demarc_count += 1
                 else:
-                    # Fresh demarcated value
+                    # Fresh demarcated value; whatever follows is literal, so
+                    # a leading & is not an ANCHOR mark
                     demarc_stack.append(char)
                     demarc_count += 1
+                    seeking_anchor_mark = False
+                    seeking_collector_operator = False
                     continue
 
             elif char == "(":
@@ -925,11 +928,21 @@ class YAMLPath:
 
                 # Replace a subset of special characters to alert users to
                 # potentially unintentional demarcation.
-                ppath += YAMLPath.ensure_escaped(
-                    str(segment_attrs),
-                    pathsep,
-                    '(', ')', '[', ']', '^', '$', '%', ' ', "'", '"'
-                )
+                key_text = str(segment_attrs)
+                if "*" in key_text:
+                    # A literal * survives only within demarcation
+                    ppath += '"{}"'.format(
+                        YAMLPath.ensure_escaped(key_text, '"'))
+                else:
+                    key_text = YAMLPath.ensure_escaped(
+                        key_text,
+                        pathsep,
+                        '(', ')', '[', ']', '^', '$', '%', ' ', "'", '"'
+                    )
+                    if key_text.startswith("&"):
+                        # Not an ANCHOR mark
+                        key_text = "\\" + key_text
+                    ppath += key_text
             elif segment_type == PathSegmentTypes.INDEX:
                 ppath += "[{}]".format(segment_attrs)
             elif segment_type == PathSegmentTypes.MATCH_ALL:
@@ -1041,8 +1054,17 @@ class YAMLPath:
 
         Returns:  (str) `section` with all special symbols escaped
         """
-        return YAMLPath.ensure_escaped(
+        if "*" in str(section):
+            # A literal * survives only within demarcation
+            return '"{}"'.format(
+                YAMLPath.ensure_escaped(section, '\\', '"'))
+
+        escaped = YAMLPath.ensure_escaped(
             section,
             '\\', str(pathsep), '(', ')', '[', ']', '^', '$', '%',
             ' ', "'", '"'
         )
+        if escaped.startswith("&"):
+            # Not an ANCHOR mark
+            escaped = "\\" + escaped
+        return escaped
